@@ -98,6 +98,11 @@ class Fresh:
                 return True, name
             if isinstance(e.func, ast.Attribute) and e.func.attr in FRESH_METHODS:
                 return True, "." + e.func.attr
+            if isinstance(e.func, ast.Attribute) and e.func.attr == "setdefault" and len(e.args) == 2:
+                # table.setdefault(k, <new container>) on a table this function created: the entry is the function's own
+                a, b = self.fresh(e.func.value, fn, mi, ci, stack, depth - 1), self.fresh(e.args[1], fn, mi, ci, stack, depth - 1)
+                if a[0] and b[0]:
+                    return True, "entry of a table created here"
             callees = [c for c in self.eff.resolve_call(e, mi, ci, fn) if c in self.eff.funcs]
             if self.prog.resolve_class(e.func, mi) is not None:
                 return True, "constructor call"
